@@ -9,6 +9,9 @@ func deriveRFC4226(secret []byte, counter uint64, digits int, algo Algorithm) (s
 	if int(algo) < 0 || int(algo) >= len(hmacPools) {
 		return "", ErrUnsupportedAlgorithm
 	}
+	if digits < 1 || digits >= len(mod10) {
+		return "", ErrInvalidCodeLength
+	}
 
 	hp := &hmacPools[algo]
 	buf := rfc4226BufPool.Get().(*[8]byte)
